@@ -57,6 +57,11 @@ def prebuffers(L):
 def print_all(lib, tree, stats=None, prebuf_subset=None):
     """prints through every variant; demands byte-identical output per format. returns {0: unformatted, 1: formatted}"""
     out = {}
+    # a print that legitimately fails (caller buffer far too small) must leave nothing behind that later prints trip over
+    small = lib.guard_rw(None, 3)
+    lib.cJSON_PrintPreallocated(tree, small, 3, 1)
+    lib.cJSON_PrintPreallocated(tree, small, 1, 0)
+    lib.guard_release(small)
     for fmt in (0, 1):
         base = lib.take_text(lib.cJSON_Print(tree) if fmt else lib.cJSON_PrintUnformatted(tree))
         if base is None:
@@ -205,7 +210,7 @@ def build_flagged(lib, jv, arena, rnd, p_const=0.5, p_ref=0.3):
     return build_tree(lib, jv)
 
 
-ROOT_VARIANTS = ["plain", "plain", "plain", "cs_member", "reference", "flagged_tree", "stale_key"]
+ROOT_VARIANTS = ["plain", "plain", "plain", "cs_member", "reference", "flagged_tree", "stale_key", "tail_reference"]
 
 
 class RootVariant:
@@ -218,6 +223,18 @@ class RootVariant:
         self.arena = Arena(lib)
         self.extra = []
         self.variant = variant
+        self.jv = jv          # the VALUE the root denotes (differs from the argument for tail_reference)
+        if variant == "tail_reference" and (jv[0] not in "AO" or len(jv[1]) < 2):
+            variant = self.variant = "plain"
+        if variant == "tail_reference":
+            # a reference container that shares the TAIL of another container's list: it denotes the elements from k on
+            tree = build_tree(lib, jv)
+            k = 1 + rnd.randrange(len(jv[1]) - 1)
+            kid = lib.children(tree)[k]
+            self.root = (lib.cJSON_CreateArrayReference if jv[0] == "A" else lib.cJSON_CreateObjectReference)(kid)
+            self.extra.append(tree)
+            self.jv = [jv[0], jv[1][k:]]
+            return
         if variant == "flagged_tree":
             self.root = build_flagged(lib, jv, self.arena, rnd)
             return
